@@ -11,6 +11,7 @@
 -/
 import GocoinV.Model.NetParse
 import GocoinV.Model.NetParseFacts
+import GocoinV.Model.NetParseLocks
 import GocoinV.Proofs.C18
 namespace GocoinV.Props.C18
 open GocoinV GocoinV.NetParse
@@ -146,6 +147,50 @@ theorem source_facts_current :
     Gen.NetFacts.dispatch = Expected.dispatch ∧ Gen.NetFacts.runGate = Expected.runGate :=
   ⟨facts_HandleVersion, facts_ProcessInv, facts_ProcessGetBlockTxn, facts_ProcessCmpctBlock, facts_ProcessBlockTxn,
    facts_FetchMessage, facts_dispatch, facts_runGate⟩
+
+/-- the linear forms of the blocktxn / cmpctblock loops that the compiled oracle runs (`@[csimp]` in
+    Model/NetParse.lean: the unread rest of the payload is carried along instead of `pl.drop offs`
+    per element) compute exactly the functions the theorems above are about. -/
+theorem fast_loops_agree (fixed : Bool) (txSize : Bytes → Nat) (pl : Bytes) (n total : Int) (k : Nat) (offs exp : Int)
+    (seen : List Bytes) (acc : List Nat) (st : Nat) :
+    blockTxnLoop txSize pl n k offs acc st = blockTxnLoopR txSize n k (pl.drop offs.toNat) offs acc st ∧
+    shortIdLoop pl n k offs seen st = shortIdLoopR n k (pl.drop offs.toNat) offs seen st ∧
+    prefilledLoop fixed txSize pl n total k offs exp acc st =
+      prefilledLoopR fixed txSize pl n total k (pl.drop offs.toNat) offs exp acc st :=
+  ⟨blockTxnLoop_eq_R txSize pl n k offs acc st, shortIdLoop_eq_R pl n k offs seen st,
+   prefilledLoop_eq_R fixed txSize pl n total k offs exp acc st⟩
+
+/-- LOCK DISCIPLINE of the current source. gen_c18 reduces every function of the ten client/network
+    files the property anchors (≈ 95 functions: all message handlers, Run, Tick, SendRawMsg, SendInvs,
+    NetRouteInvExt, GetStats …) to its lock trace; the lock-set scan of Model/NetParseLocks finds on
+    the regenerated traces: no return / end of function with a lock taken there still held (unless its
+    Unlock is deferred), no `break` / `continue` / `goto` leaving with a changed lock set, no second
+    Lock of a held mutex, no Unlock of an unheld one, and every access to InvDone.Map, PendingInvs,
+    c.InvStore, GetBlockInProgress deletes and peersdb.PeerDB.Put/Del inside the span of its lock.
+    (Per function and path-insensitive; locks taken inside callees are not followed.) -/
+theorem lock_discipline_current : NetParse.Locks.complaints Gen.NetFacts.lockTraces = [] := by decide +kernel
+
+/-- the shared accesses the traces are known to contain (so that a renamed field cannot silently
+    empty the list the previous theorem speaks about) -/
+theorem shared_accesses_tracked :
+    ("OneConnection.processGetData", "c.InvStore(…)", "c.Mutex") ∈ Gen.NetFacts.sharedAccesses ∧
+    ("OneConnection.ProcessInv", "c.InvStore(…)", "c.Mutex") ∈ Gen.NetFacts.sharedAccesses ∧
+    ("OneConnection.SendInvs", "c.InvStore(…)", "c.Mutex") ∈ Gen.NetFacts.sharedAccesses ∧
+    ("OneConnection.ProcessNewHeader", "c.InvStore(…)", "c.Mutex") ∈ Gen.NetFacts.sharedAccesses ∧
+    ("NetRouteInvExt", "v.InvDone.Map", "v.Mutex") ∈ Gen.NetFacts.sharedAccesses ∧
+    ("NetRouteInvExt", "v.PendingInvs", "v.Mutex") ∈ Gen.NetFacts.sharedAccesses ∧
+    ("OneConnection.ParseAddr", "peersdb.PeerDB.Put", "peersdb") ∈ Gen.NetFacts.sharedAccesses ∧
+    64 ≤ Gen.NetFacts.lockTraces.length := by decide +kernel
+
+/-- the scan is not vacuous: it accepts the current shapes of ParseAddr's database-full path and of
+    processGetData's InvStore, and rejects `continue` with the peers-database lock held, InvStore
+    outside c.Mutex, and a return between Lock and Unlock. -/
+theorem lock_scan_discriminates :
+    NetParse.Locks.scanFrom [] NetParse.Locks.shapeGoto = [] ∧
+    NetParse.Locks.scanFrom [] NetParse.Locks.shapeContinue = ["continue with a changed lock set: peersdb held"] ∧
+    NetParse.Locks.scanFrom [] NetParse.Locks.shapeStoreLocked = [] ∧
+    NetParse.Locks.scanFrom [] NetParse.Locks.shapeStoreBare = ["shared access without c.Mutex"] ∧
+    NetParse.Locks.scanFrom [] NetParse.Locks.shapeReturnHeld = ["return with c.Mutex held"] := by decide +kernel
 
 -- OPEN (not modelled, hence not stated): "whole handler" totality including the backend —
 -- ProcessNewHeader / PostCheckBlock / mempool matching / peer database; and the send-buffer
